@@ -886,6 +886,19 @@ func judgePSMulti(r *Run) []Finding {
 			ctx[e.I] = e.Info
 		}
 	}
+	for _, e := range r.Events {
+		if e.Ev != "captable" {
+			continue
+		}
+		for a := 0; a < 4; a++ {
+			for b := 0; b < 4; b++ {
+				want := fmt.Sprintf("%02x%02x", 0x80>>uint(a), 0x80>>uint(b))
+				if got := fmt.Sprint(e.Info[fmt.Sprintf("%d/%d", a, b)]); got != want {
+					fs = addFinding(fs, "ident.seccap-table@GetUESecurityCapability", fmt.Sprintf("a context set to 5G-EA%d / 5G-IA%d advertises %s, TS 24.501 9.11.3.54 has %s for exactly those two", a, b, got, want), 0)
+				}
+			}
+		}
+	}
 	ranSeen := map[string]int{}
 	for i := range subs {
 		c := created[i]
